@@ -20,7 +20,9 @@ Step(x, m) ==
          ELSE [nr |-> x.nr, dead |-> TRUE, deliver |-> FALSE, rr |-> FALSE]
     ELSE IF m.seq = x.nr THEN [nr |-> x.nr + 1, dead |-> FALSE, deliver |-> m.kind = "app", rr |-> FALSE]
     ELSE IF m.seq > x.nr THEN
-         IF m.kind = "logon" \/ ~x.cont THEN [nr |-> x.nr, dead |-> TRUE, deliver |-> FALSE, rr |-> FALSE]
+         IF (m.kind = "logon" \/ ~x.cont) /\ x.ignoreLogonGap   \* SessionConfig ignore_logon_sequence_check: no throw, no ResendRequest
+              THEN [nr |-> x.nr + 1, dead |-> FALSE, deliver |-> FALSE, rr |-> FALSE]
+         ELSE IF m.kind = "logon" \/ ~x.cont THEN [nr |-> x.nr, dead |-> TRUE, deliver |-> FALSE, rr |-> FALSE]
          ELSE [nr |-> x.nr + 1, dead |-> FALSE, deliver |-> FALSE, rr |-> TRUE]
     ELSE IF m.dup THEN [nr |-> x.nr + 1, dead |-> FALSE, deliver |-> m.kind = "app", rr |-> FALSE]
     ELSE [nr |-> x.nr, dead |-> TRUE, deliver |-> FALSE, rr |-> FALSE]
